@@ -46,3 +46,20 @@ Qed.
     with fields, a package and a buffer *)
 Example C11_parse_encode_example : wf_program good_program = true /\ parse_encode_statement good_program.
 Proof. exact good_program_ok. Qed.
+
+(** the null target has ONE spelling.  In a Target / SuperName / SimpleName position the byte 00 is the NullName ([ANull]): the
+    parser creates no argument for it and [ns] does not count it.  [AConst Zero] in such a position encodes to the very
+    same bytes; [ns] would count it as an argument and the view (which drops it) would disagree - not a parser defect but
+    a second spelling of the same table, so [wf_program] rejects it ([targets_ok] in Aml/WfProgram.v).  In a TermArg position
+    Zero is an ordinary constant. *)
+Definition null_target_spelled_null : list (list ast) :=
+  [[AMethod 1 (mkName false 0 false [seg4 0x4d 0x54 0x48 0x30]) 0 [AOp aml_pOpAdd [AConst OP_BYTE 5; AConst aml_pOpZero 0; ANull]]]].
+Definition null_target_spelled_zero : list (list ast) :=
+  [[AMethod 1 (mkName false 0 false [seg4 0x4d 0x54 0x48 0x30]) 0 [AOp aml_pOpAdd [AConst OP_BYTE 5; AConst aml_pOpZero 0; AConst aml_pOpZero 0]]]].
+Example C11_null_target_one_spelling :
+  map encode_table null_target_spelled_null = map encode_table null_target_spelled_zero /\
+  wf_program null_target_spelled_null = true /\ parse_encode_statement null_target_spelled_null /\
+  wf_program null_target_spelled_zero = false /\ ns null_target_spelled_zero <> ns null_target_spelled_null /\
+  wf_program [[AMethod 1 (mkName false 0 false [seg4 0x4d 0x54 0x48 0x30]) 0 [AOp aml_pOpStore [AConst OP_BYTE 5; AConst aml_pOpZero 0]]]] = false /\
+  wf_program [[AMethod 1 (mkName false 0 false [seg4 0x4d 0x54 0x48 0x30]) 0 [AOp aml_pOpStore [AConst aml_pOpZero 0; AOp aml_pOpLocal0 []]]]] = true.
+Proof. vm_compute. repeat split; try reflexivity. discriminate. Qed.
